@@ -14,8 +14,9 @@ def run(prop, tier, seed, replay=None):
     V.assumptions = [
         "Integer arithmetic used by ratrecon (operator/=, %, maxpyin, gcd, sqrt, comparisons) is modelled by its GMP contract over Int "
         "(truncated division, mpz_gcd >= 0, mpz_sqrt = floor square root); those contracts are the subject of C01/C02",
-        "Poly1Dom primitives called by the polynomial variant (degree, divmodin, maxpyin, gcd, leadcoef, divin) are modelled by list "
-        "polynomials over Z/p in the driver and by the Euclidean-ring laws in the theorems; that Poly1Dom satisfies them is C08",
+        "Poly1Dom primitives called by the polynomial variant (degree, divmodin, maxpyin, gcd, leadcoef, divin) are interpreted by "
+        "Mathlib's Polynomial F operations (any field F) in the full-strength theorems and by list polynomials over Z/p in the driver; "
+        "that Poly1Dom's primitives compute those operations is C08 (the driver compares the compiled code with the list model on every case)",
         "diagnostics written to std::cerr are not modelled; QField::ratrecon/Rational(f,m,k,recurs) return no success flag "
         "(soundness is checked on the flag-returning entry points, completeness and the model on all)",
     ]
@@ -36,7 +37,10 @@ def run(prop, tier, seed, replay=None):
              "for m <= 11/16; every fraction of the uniqueness envelope for all m <= 1500/6000 and a stride of larger m; structured "
              "random moduli of 5..512 bits (prime, prime power, power of two, smooth, arbitrary) with residues that are canonical, "
              "negative, >= m, < -m, multiples of m, and bounds {1,2,isqrt,isqrt+1,m/2,m-1,m,random}; polynomials over Z/p exhaustive "
-             "for p = 2,3(,5) up to small degree and structured random for p up to 2^31-1. distinct = distinct input lines with a "
-             "non-trivial operand",
+             "for p = 2,3(,5) up to small degree and structured random for p up to 2^31-1; uniqueness stream: every reduced n/d with "
+             "|n| < k, 2kd <= m for all m <= 44/72 and all k, structured large moduli at the edges of the bounds, several representatives "
+             "of the residue; polynomial completeness stream: every A/B within the degree bounds with gcd(B,M)=1 for small fields, "
+             "structured random up to degree 40; reported failures are checked exact by brute force (integers m <= 64, polynomials "
+             "p <= 5 with <= 700 denominators). distinct = distinct input lines with a non-trivial operand",
         extra={"lines_per_entry_point": keys})
     return V.finish()
